@@ -23,16 +23,19 @@ let label (s : string) : coq_N list =
 let kind_ctx (kind : string) =
   let k = String.sub kind 0 1 and l = String.sub kind 1 (String.length kind - 1) in
   let ex = label "example" in
+  (* <label> may hold several labels separated by '.' *)
+  let ls = Stdlib.List.map label (String.split_on_char '.' l) in
   match k with
-  | "n" | "d" -> (0, 0, Some [label l; ex], None, true)
-  | "w" | "y" | "z" -> (0, 0, Some [label l; label "w"; ex], Some [label "*"; label "w"; ex], true)
-  | "c" -> (0, 0, Some [label l; label "cw"; ex], Some [label "*"; label "cw"; ex], true)
-  | "x" -> (0, 3, Some [label l; label "nx"; ex], None, true)
-  | "r" -> (0, 5, Some [label l; label "other"], None, true)
+  | "n" | "d" -> (0, 0, Some (ls @ [ex]), None, true)
+  | "w" | "y" | "z" -> (0, 0, Some (ls @ [label "w"; ex]), Some [label "*"; label "w"; ex], true)
+  | "b" -> (0, 0, Some (ls @ [label "big"; ex]), Some [label "*"; label "big"; ex], true)
+  | "c" -> (0, 0, Some (ls @ [label "cw"; ex]), Some [label "*"; label "cw"; ex], true)
+  | "x" -> (0, 3, Some (ls @ [label "nx"; ex]), None, true)
+  | "r" -> (0, 5, Some (ls @ [label "other"]), None, true)
   | "f" -> (0, 1, None, None, true)
   | "m" -> (0, 0, None, None, false)
-  | "o" -> (4, 4, Some [label l; ex], None, true)
-  | "v" -> (0, 16, Some [label l; ex], None, true)      (* BADVERS: extended RCODE 16 *)
+  | "o" -> (4, 4, Some (ls @ [ex]), None, true)
+  | "v" -> (0, 16, Some (ls @ [ex]), None, true)      (* BADVERS: extended RCODE 16 *)
   | _ -> failwith "unknown kind"
 
 let mk_ctx kind edns src transport : Rrl.ctx =
